@@ -196,6 +196,15 @@ fn g_c16(r: &mut Rng) -> Vec<Val> {
         a = Geonum::new_with_angle(ma, mk_angle(bl, ra));
         b = Geonum::new_with_angle(mb, mk_angle(bl, rb));
     }
+    if r.chance(1, 6) {
+        // same blade, remainders a hair apart: around the 1e-15 tolerance of `==` (0.9e-15 .. 1.1e-15), or 1..40 ulps
+        let ra = a.angle.rem();
+        if ra > 1e-3 && ra < 1.5 {
+            let gap = match r.below(3) { 0 => 1e-15 * (0.9 + 0.2 * r.unit()), 1 => (ulps(ra, r.range(1, 40)) - ra).abs(), _ => 1e-15 };
+            let rb = if r.chance(1, 2) { ra + gap } else { ra - gap };
+            b = Geonum::new_with_angle(if r.chance(1, 2) { a.mag } else { b.mag }, mk_angle(a.angle.blade(), rb));
+        }
+    }
     let c = match r.below(4) { 0 => a, 1 => Geonum::new_with_angle(b.mag, a.angle), 2 => Geonum::new_with_angle(a.mag, mk_angle(a.angle.blade(), gen_rem(r))), _ => gen_geonum(r) };
     vec![Val::G(a), Val::G(b), Val::G(c)]
 }
@@ -206,6 +215,11 @@ fn c16_order(v: &[Val]) -> Result<bool, String> {
     if e && x.blade() != y.blade() { return Err("angles with different blade counts compare equal".into()); }
     if e && (x.rem() - y.rem()).abs() >= 1e-15 && x.rem() != y.rem() { return Err("angles with remainders 1e-15 or more apart compare equal".into()); }
     if x.blade() == y.blade() && x.rem() == y.rem() && !e { return Err("identical angles compare unequal".into()); }
+    // the tolerance works in both directions: same blade and remainders less than 1e-15 apart ARE equal.  Judged only where the
+    // difference of the two remainders is exact in f64 (Sterbenz: within a factor two of each other), so the reference is exact
+    { let (p, q) = (x.rem(), y.rem());
+      if x.blade() == y.blade() && p > 0.0 && q > 0.0 && p <= 2.0 * q && q <= 2.0 * p && (p - q).abs() < 1e-15 && !e {
+          return Err(format!("same blade, remainders {:e} apart (less than 1e-15) compare unequal", (p - q).abs())); } }
     if (a == b) != (e && a.mag == b.mag) { return Err("Geonum equality is not (angle equal and magnitude identical)".into()); }
     // lexicographic order: blade, remainder, magnitude
     let want = x.blade().cmp(&y.blade()).then(x.rem().partial_cmp(&y.rem()).unwrap()).then(a.mag.partial_cmp(&b.mag).unwrap());
